@@ -10,7 +10,7 @@ Local Open Scope N_scope.
 
 (** (function id, key bytes, index) -> result.
     ids: 1 o_sk_fvk 2 s_sk_fvk 3 t_sk_pk 4 o_fvk_ivk 5 s_fvk_ivk 6 t_pk_ivk 7 o_addr 8 s_addr
-    9 t_addr; decoders 10 o_sk 11 s_sk 12 t_sk 13 o_fvk 14 s_fvk 15 t_fvk 16 o_ivk 17 s_ivk 18 t_ivk *)
+    9 t_addr; 23 t_sk_ivk; decoders 10 o_sk 11 s_sk 12 t_sk 13 o_fvk 14 s_fvk 15 t_fvk 16 o_ivk 17 s_ivk 18 t_ivk *)
 Definition oentry := (N * bytes * N * ores)%type.
 Definition otab := list oentry.
 
@@ -45,5 +45,6 @@ Definition orc_of (t : otab) : oracles :=
     (fun k j => look_bytes t 7 k j) (fun k j => look_opt t 8 k j) (fun k j => look_opt t 9 k j)
     (fun k => look_ores t 10 k 0) (fun k => look_ores t 11 k 0) (fun k => look_ores t 12 k 0)
     (fun k => look_ores t 13 k 0) (fun k => look_ores t 14 k 0) (fun k => look_ores t 15 k 0)
-    (fun k => look_ores t 16 k 0) (fun k => look_ores t 17 k 0) (fun k => look_ores t 18 k 0).
+    (fun k => look_ores t 16 k 0) (fun k => look_ores t 17 k 0) (fun k => look_ores t 18 k 0)
+    (fun k => look_opt t 23 k 0).
 
